@@ -1211,7 +1211,9 @@ def b_type(interp, args, kwargs):
 
 def b_iter(interp, args, kwargs):
     if len(args) == 2:
-        return T('iter2', interp.termify(args[0]), interp.termify(args[1]))
+        # iter(callable, sentinel): one symbolic call shows what is produced
+        produced = interp.call(args[0], [])
+        return T('iter2', interp.termify(produced), interp.termify(args[1]))
     if isinstance(args[0], (ListV, TupleV)):
         return args[0]
     return T('call', 'iter', interp.termify(args[0]))
